@@ -32,6 +32,7 @@ decode_f = z3.Function('locale_decode', S, S)
 int_ok_f = z3.Function('int_ok', S, B)
 int_val_f = z3.Function('int_val', S, I)
 lower_f = z3.Function('str_lower', S, S)
+replace_all_f = z3.Function('str_replace_all', S, S, S, S)
 glob_f = z3.Function('fnmatchcase', S, S, B)
 str_of_f = z3.Function('str_of_opaque', I, S)
 int_str_f = z3.Function('str_of_int', I, S)   # str(i): decimal digits; kept uninterpreted (injectivity not assumed)
